@@ -1007,10 +1007,61 @@ func (c *ExprCtx) call(x CCall) TV {
 				c.fail("called(name)")
 			}
 			key := "ghost:called:" + n.Name
+			if len(x.Args) == 2 {
+				k, ok := litValue(c.intExpr(x.Args[1]))
+				if !ok {
+					c.fail("called(name, k) needs a constant ordinal")
+				}
+				key = fmt.Sprintf("ghost:called:%s#%d", n.Name, k.Int64())
+			}
 			if _, has := e.keySorts[key]; !has {
 				c.fail("called(%s): the contract does not track this callee (internal error)", n.Name)
 			}
 			return TV{V: e.get(c.st, key, SBool), Typ: types.Typ[types.Bool]}
+		case "any":
+			// any(name): one arbitrary integer, the same in every clause of the function's contract
+			// (a universally quantified ghost constant: what is proved holds for each of its values)
+			n, ok := x.Args[0].(CIdent)
+			if !ok {
+				c.fail("any(name)")
+			}
+			return TV{V: T{e.s.DeclareFun("any:"+n.Name, nil, SInt), SInt}}
+		case "iterfresh":
+			// iterfresh(v): the storage of slice / pointer v was allocated by an allocation that sits
+			// inside the innermost loop enclosing this point, i.e. during the current iteration (each
+			// iteration therefore has its own). Decided syntactically on the allocation constant: a
+			// value that is not literally such an allocation makes the clause false.
+			tv := c.expr(x.Args[0])
+			var base T
+			switch v := tv.V.(type) {
+			case *SliceV:
+				base = v.Base
+				if v.FromCell != nil && v.FromCell.Alloc != nil {
+					// a slice of a local array that lives in a cell: the cell's Alloc is the allocation
+					if li := c.innermostLoop(); li != nil && li.body[v.FromCell.Alloc.Block()] {
+						return TV{V: True, Typ: types.Typ[types.Bool]}
+					}
+					return TV{V: False, Typ: types.Typ[types.Bool]}
+				}
+			case *PtrV:
+				base = v.A.Base
+			default:
+				c.fail("iterfresh: slice or pointer expected")
+			}
+			li := c.innermostLoop()
+			if li == nil {
+				c.fail("iterfresh() is only meaningful at a site inside a loop")
+			}
+			bs := base.S
+			if strings.HasPrefix(bs, "(arrview ") && strings.HasSuffix(bs, ")") {
+				// the slice view of an array object: the object is what was allocated
+				bs = strings.TrimSuffix(strings.TrimPrefix(bs, "(arrview "), ")")
+			}
+			ap, ok := e.allocAt[bs]
+			if ok && ap.fr == c.fr && li.body[ap.b] {
+				return TV{V: True, Typ: types.Typ[types.Bool]}
+			}
+			return TV{V: False, Typ: types.Typ[types.Bool]}
 		case "ghost":
 			n, ok := x.Args[0].(CIdent)
 			if !ok {
